@@ -121,6 +121,14 @@ package gocvss31
 //@   ensures[reject_nil] (=> (not (isnil result.1)) (isnil result.0))
 //@   ensures[allocation_budget] (=> (isnil result.1) (<= allocs (+ (old allocs) 1)))
 
+// ---- buffer helpers of Vector: they write only through b (C14 frame) ----
+
+//@ func mandatory(b, pre, v)
+//@   modifies b
+
+//@ func notMandatory(b, pre, v)
+//@   modifies b
+
 // ---- Vector / lenVec (C02, C08, C17): the serialiser writes the canonical form in one allocation ----
 
 //@ func lenVec(cvss31)
